@@ -147,6 +147,16 @@ def fn (args : List String) : String :=
       | .panic m => "panic:" ++ m
       | .fuel => "fuel"
     | none => "bad-op"
+  | ["verifyflags", c] => match c.toNat? with
+    | some c => errName (verifyFlags (BitVec.ofNat 8 c))
+    | none => "bad-op"
+  | ["propsforcode", c] => match c.toNat? with
+    | some c => let (p, e) := PropertiesForCode (BitVec.ofNat 8 c); s!"{p.LC.toInt} {p.LP.toInt} {p.PB.toInt} {errName e}"
+    | none => "bad-op"
+  | ["propscode", lc, lp, pb] => match lc.toNat?, lp.toNat?, pb.toNat? with
+    | some lc, some lp, some pb =>
+      toString (Properties_Code { LC := BitVec.ofNat 64 lc, LP := BitVec.ofNat 64 lp, PB := BitVec.ofNat 64 pb }).toNat
+    | _, _, _ => "bad-op"
   | ["uvarint", h] => match readUvarint 64 { inp := unhexList h } with
     | .ok (x, n, e, r) => s!"{x.toNat} {n.toInt} {errName e} {r.inp.length}"
     | .panic m => "panic:" ++ m
